@@ -106,6 +106,22 @@ func (p *FunctionBuilder) CreateFunction(m *bmodel.MethodEntry) (*gmodel.Functio
 		srcVar.Name = m.Opts.Receiver
 	}
 
+	// Receiver, parameters and named results share one scope in the generated function.
+	usedNames := []string{srcVar.Name, dstVar.Name}
+	for _, arg := range additionalArgsVars {
+		usedNames = append(usedNames, arg.Name)
+	}
+	if m.RetError() {
+		usedNames = append(usedNames, "err")
+	}
+	seenNames := make(map[string]bool, len(usedNames))
+	for _, name := range usedNames {
+		if name != "_" && seenNames[name] {
+			return nil, logger.Errorf("%v: the name %v would be declared twice in the generated function", p.fset.Position(m.Method.Pos()), name)
+		}
+		seenNames[name] = true
+	}
+
 	var assignments []gmodel.Assignment
 	var err error
 	if m.Opts.Reverse {
